@@ -60,6 +60,13 @@ _load_oui_names()
 
 def _compare_helper (self, other, f, rf):
   t = type(self)
+  if other is None:
+    # (EthAddr(None)/IPAddr6(None) would give the all-zero address)
+    return NotImplemented
+  if isinstance(other, _AddrBase) and not isinstance(other, t):
+    # An address of another family.  (Asking it to compare itself with us
+    # just bounced back and forth until the stack ran out.)
+    return NotImplemented
   try:
     if isinstance(other, t): ov = other._value
     else: ov = t(other)._value
